@@ -278,18 +278,11 @@ func normMsg(msg string) string {
 	// keep the innermost clause(s) of wrapped errors: the compiler wraps every error in
 	// "failed to compile <where>:" context that says nothing about the cause
 	parts := strings.Split(msg, ": ")
-	keep := 3
-	if strings.HasPrefix(msg, "failed to compile") {
-		keep = 1
-		if strings.Contains(msg, "strconv.") {
-			keep = 3
-		}
+	for len(parts) > 1 && strings.HasPrefix(parts[0], "failed to compile") {
+		parts = parts[1:]
 	}
-	if keep == 1 && len(parts) > 1 && len(parts[len(parts)-1]) < 14 {
-		keep = 2 // "unknown unit: xyz"
-	}
-	if len(parts) > keep {
-		parts = parts[len(parts)-keep:]
+	if len(parts) > 3 {
+		parts = parts[len(parts)-3:]
 	}
 	msg = strings.Join(parts, ": ")
 	msg = strings.ReplaceAll(msg, "'if'", "if")
